@@ -7,6 +7,7 @@
 mod wasm_driver;
 
 mod c07;
+mod c09;
 mod c10;
 mod c11;
 mod c12;
@@ -74,6 +75,7 @@ fn main() {
                 .enumerate()
                 .map(|(idx, c)| match prop {
                     "c07" => c07::replay(c, thorough, cli.as_deref(), idx),
+                    "c09" => c09::replay(c, thorough, cli.as_deref(), idx),
                     "c12" => c12::replay(c, &ls),
                     "c10" => c10::replay(c),
                     "c11" => c11::replay(c),
